@@ -148,31 +148,107 @@ def run_inprocess(case, seed):
 
 
 class OrderedExecutor:
-    """Stand-in for a concurrent.futures executor: runs the tasks of map() in a chosen
-    completion order and hands the results back in submission order (the contract of map)."""
+    """Stand-in for a concurrent.futures executor with a chosen completion order.
+
+    map(): runs the tasks in the chosen order and hands the results back in submission order (the contract
+    of map).  submit(): returns real Future objects; the tasks submitted in one burst are run by a dispatcher
+    thread in the chosen order, so result(), as_completed(), wait() and done-callbacks all work and observe
+    that completion order."""
     order = None
+    GRACE = 0.05       # a burst ends when nothing was submitted for this long, or when a result is awaited
 
     def __init__(self, *a, **kw):
-        pass
+        import threading
+        self._lock = threading.Lock()
+        self._pending = []
+        self._last = 0.0
+        self._thread = None
+        self._closed = False
+        self._flush = threading.Event()
 
     def __enter__(self):
         return self
 
     def __exit__(self, *a):
+        self.shutdown()
         return False
 
-    def map(self, fn, items):
-        items = list(items)
-        idx = list(range(len(items)))
+    @staticmethod
+    def _perm(n):
+        idx = list(range(n))
         perm = OrderedExecutor.order
         if perm == "reverse":
             idx = idx[::-1]
         elif perm == "rotate":
             idx = idx[1:] + idx[:1]
+        return idx
+
+    def map(self, fn, *iterables, timeout=None, chunksize=1):
+        items = list(zip(*iterables))
         results = {}
-        for i in idx:
-            results[i] = fn(items[i])
-        return [results[i] for i in range(len(items))]
+        for i in self._perm(len(items)):
+            results[i] = fn(*items[i])
+        return iter([results[i] for i in range(len(items))])
+
+    # -- submit protocol
+    def _run_batch(self):
+        with self._lock:
+            batch, self._pending = self._pending, []
+        for i in self._perm(len(batch)):
+            fut, fn, a, kw = batch[i]
+            if not fut.set_running_or_notify_cancel():
+                continue
+            try:
+                fut.set_result(fn(*a, **kw))
+            except BaseException as ex:  # pylint: disable=broad-except
+                fut.set_exception(ex)
+
+    def _dispatch(self):
+        import time
+        while True:
+            self._flush.wait(self.GRACE)
+            with self._lock:
+                idle = time.monotonic() - self._last >= self.GRACE
+                have = bool(self._pending)
+                closed = self._closed
+            if have and (idle or self._flush.is_set() or closed):
+                self._flush.clear()
+                self._run_batch()
+            elif closed and not have:
+                return
+
+    def submit(self, fn, *a, **kw):
+        import threading
+        import time
+        import concurrent.futures as cf
+        ex = self
+
+        class _Future(cf.Future):
+            def result(self, timeout=None):
+                ex._flush.set()
+                return super().result(timeout)
+
+            def exception(self, timeout=None):
+                ex._flush.set()
+                return super().exception(timeout)
+        fut = _Future()
+        with self._lock:
+            if self._closed:
+                raise RuntimeError("cannot schedule new futures after shutdown")
+            self._pending.append((fut, fn, a, kw))
+            self._last = time.monotonic()
+            if self._thread is None:
+                self._thread = threading.Thread(target=self._dispatch, daemon=True)
+                self._thread.start()
+        return fut
+
+    def shutdown(self, wait=True, cancel_futures=False):
+        with self._lock:
+            self._closed = True
+            th = self._thread
+        self._flush.set()
+        if th is not None and wait:
+            th.join()
 
 
 def generic_chain(mode, epsrel, seed):
